@@ -3,9 +3,11 @@ NOTE = ("Trusted: go/types + go/ssa + VTA of x/tools v0.29.0; dependencies (froz
         "configuration, non-test files of module github.com/arr-ai/arrai. Decides only the structural clauses named in 'text'; "
         "value-level behaviour is out of reach of this family and not claimed.")
 
-claim("C08", "grammar-language enumeration vs operator-table keys (AST + types), control-dependence check of short-circuit operators",
+claim("C08", "grammar-language enumeration vs operator-table keys (AST + types), control dependence of short-circuit operand evaluation on the first operand's value, operand-preservation data flow of expression constructors",
       "Decides structural necessary conditions of the source-level equivalences: (R08a) every operator token the compiled wbnf grammar "
-      "can produce has an entry in the operator table the compiler indexes with it, or the lookup tests presence. A pass does not show the "
+      "can produce has an entry in the operator table the compiler indexes with it (a lone ~ is a declared over-generation); (R08b) &&, || and if/else "
+      "evaluate their later operands only under a branch on the first operand's value; (R08e) no constructor in binops/unops returns an expression "
+      "that dropped a non-literal operand (compile-time folding cannot skip an evaluation); (R08d) let and arrow share one constructor chain. A pass does not show the "
       "equivalences themselves (that needs evaluation); a failure shows a source text on which compile/eval crashes instead of behaving "
       "like its documented equivalent.", NOTE, "DESIGN.md §3 C08")
 
